@@ -25,3 +25,10 @@ package inject
 //@   props C03 C04
 //@   ensures result != nil && dyn(result) == type(*injector) && fresh(result)
 //@   ensures result.(*injector).parent == nil && result.(*injector).values != nil
+
+// InterfaceOf is a function of its argument; it panics unless given a pointer to an interface.
+//@ func InterfaceOf
+//@   props C04
+//@   pure
+//@   panics true
+//@   skip nil
